@@ -622,4 +622,4 @@ def replay_flags(out, label, model, info):
         path = e3.write_replay(PID, "flags-%s" % re.sub(r"\W+", "_", " | ".join(lists))[:60], case)
         out.violation("dump-flag|%s" % common.norm(" | ".join(lists))[:80], path, "the traits whose code is dumped are not the ones the lists ask for: #[derive_ex(%s)] %s %s" % (attr, stacked, item))
     else:
-        out.broken.append("UNCONFIRMED counterexample for %s: #[derive_ex(%s)] %s %s" % (label, attr, stacked, item))
+        e3.not_reproduced(out, model, "for %s: #[derive_ex(%s)] %s %s" % (label, attr, stacked, item))
